@@ -58,6 +58,7 @@ static void torture(const char *name, long long idx, int nthreads, uint64_t pair
 int main(int argc, char **argv) {
 	parse_args(argc, argv, "c12_tsan");
 	g_panic_exits = true;
+	start_inconclusive_watchdog(opt.thorough() ? 3000 : 90);
 	rec.rule = "a case is one run of 2-4 free-running threads doing lock/unlock pairs around plain shared data under ThreadSanitizer, with seeded jitter at the library's hook points; distinct = (lock, thread count, run index)";
 	uint64_t runs = scaled(6, 60);
 	for(uint64_t i = 0; i < runs; i++) {
